@@ -1,12 +1,17 @@
 (* C03 -- the client receives exactly the bytes the application wrote, once and in order.
-   Only property theorems, each closed by `exact <lemma>`; proofs are in Proofs*.v. *)
-From CppcmsV Require Import Base.Tac C03.Defs C03.Proofs.
+   Only property theorems, each closed by `exact <lemma>`; proofs are in Proofs.v .. Proofs5.v.
+   Vocabulary (Defs.v): conn = connection object (format state k_fmt, pending_output_, wire = list of pieces the
+   socket accepted, accept schedule k_sched, ghost trace k_trace of every (gather buffer, eof) handed to
+   format_output); sent c = bytes on the wire ++ pending_output_; stream f t = the ideal concatenation of
+   format_output over a trace; tr c = bytes the device asked the connection to write. *)
+From CppcmsV Require Import Base.Tac Base.CSem C03.Defs C03.Proofs C03.Proofs2 C03.Proofs3 C03.Proofs4 C03.Proofs5 C03.Proofs6 C03.Proofs7 C03.Link gen.Gen_C03.
 Local Open Scope N_scope.
 
-(* 1. pending_output_ bookkeeping (src/cgi_api.cpp).  For every accept schedule (the schedule is a
-      field of the connection, universally quantified): what the socket has accepted followed by
-      pending_output_ equals the previous committed stream followed by the newly formatted data,
-      whichever of the three branches of nonblocking_write is taken. *)
+(* ------------------------------------------------------------------------------------------------ 1. pending_conservation
+   pending_output_ bookkeeping (src/cgi_api.cpp).  The accept schedule is a field of the connection and is
+   universally quantified: whatever prefix the socket accepts (nothing, a short prefix, everything offered, at
+   most 16 gather entries), wire ++ pending grows by exactly the newly formatted data in each of the three
+   branches of nonblocking_write. *)
 Theorem pending_conservation : forall c g eof f1 new_data,
   k_err c = false -> format_output (k_fmt c) g eof = (f1, new_data, false) ->
   let r := nonblocking_write c g eof in
@@ -15,8 +20,8 @@ Theorem pending_conservation : forall c g eof f1 new_data,
 Proof. exact nb_write_sent. Qed.
 Print Assumptions pending_conservation.
 
-(* async_write + async_write_handler: however often the socket reports would-block or accepts a
-   short prefix, the handler retries until everything formatted so far is on the wire *)
+(* async_write + async_write_handler: however often the socket reports would-block or accepts a short prefix,
+   the handler retries until everything formatted so far is on the wire and nothing is pending *)
 Theorem async_write_completes : forall c g eof f1 new_data,
   k_err c = false -> format_output (k_fmt c) g eof = (f1, new_data, false) ->
   let c' := async_write c g eof in
@@ -25,7 +30,7 @@ Theorem async_write_completes : forall c g eof f1 new_data,
 Proof. exact async_write_spec. Qed.
 Print Assumptions async_write_completes.
 
-(* blocking connection::write: unless the socket reports an error, the whole committed stream is written *)
+(* blocking connection::write: unless the socket signals an error, old pending data and the new data are written *)
 Theorem blocking_write_exact : forall c g eof f1 new_data,
   k_err c = false -> format_output (k_fmt c) g eof = (f1, new_data, false) ->
   let c' := blocking_write c g eof in
@@ -34,10 +39,235 @@ Theorem blocking_write_exact : forall c g eof f1 new_data,
 Proof. exact blocking_write_spec. Qed.
 Print Assumptions blocking_write_exact.
 
+(* over whole runs: every interleaving of nonblocking, blocking and asynchronous writes, every schedule:
+   the committed stream is the old one followed by the ideal stream of the trace; it does not depend on the schedule *)
+Theorem pending_conservation_run : forall ops c, k_err (crun c ops) = false ->
+  sent (crun c ops) = sent c ++ stream (k_fmt c) (map cop_entry ops) /\
+  k_fmt (crun c ops) = fmt_after (k_fmt c) (map cop_entry ops) /\
+  k_trace (crun c ops) = k_trace c ++ map cop_entry ops.
+Proof. exact conn_stream. Qed.
+Print Assumptions pending_conservation_run.
+
+(* at completion (last write blocking or asynchronous) pending = [] and the wire is the ideal stream *)
+Theorem completion_nothing_pending : forall ops last c,
+  (match last with CNb _ _ => False | _ => True end) -> k_err (crun c (ops ++ [last])) = false ->
+  wire_bytes (crun c (ops ++ [last])) = sent c ++ stream (k_fmt c) (map cop_entry (ops ++ [last])) /\
+  k_pending (crun c (ops ++ [last])) = [].
+Proof. exact conn_complete. Qed.
+Print Assumptions completion_nothing_pending.
+
 Example pending_nonvacuous :
   let c := new_conn Scgi true false 1 [] [1;2;3] [2;0;5] [] in
   let c1 := with_fmt c (set_fmt (k_fmt c) [72;13;10;13;10] false false None 0 false) in
   let r := nonblocking_write c1 [[7;8;9;10]] false in
   snd r = false /\ k_wire (fst r) = [[1;2]] /\ k_pending (fst r) = [3;72;13;10;13;10;7;8;9;10] /\
-  wire_bytes (async_write (fst r) [] true) = [1;2;3;72;13;10;13;10;7;8;9;10].
+  wire_bytes (async_write (fst r) [] true) = [1;2;3;72;13;10;13;10;7;8;9;10] /\
+  k_err (crun c1 [CNb [[7;8]] false; CNb [[9]] false; CAs [] true]) = false /\
+  k_log (crun c1 [CNb [[7;8]] false; CNb [[9]] false; CAs [] true]) = [(10, 2); (9, 0); (9, 5); (4, 4)].
 Proof. vm_compute. repeat split. Qed.
+
+(* ------------------------------------------------------------------------------------------------ 2. device_conservation
+   basic_device / output_device / async_io_buf (src/http_response.cpp): open with any capacity (0 included), any
+   sequence of xsputn / sputc / sync / setbuf n / full_buffering b / flush in which no setbuf shrinks a fully
+   buffered device below its content (dsafe), then close: the connection is handed exactly the bytes written, in
+   order; nothing stays buffered; eof is signalled exactly once, by the last write; a second close does nothing. *)
+Theorem device_conservation : forall ops async cap c,
+  let d0 := dev_open (new_dev async) cap in
+  dsafe d0 c ops ->
+  let (d1, c1) := drun d0 c ops in
+  let (d2, c2) := dev_close d1 c1 in
+  tr c2 = tr c ++ concat (map dbytes ops) /\ d_buf d2 = [] /\
+  (exists k, eofs c2 = eofs c ++ repeat false k ++ [true]) /\
+  dev_close d2 c2 = (d2, c2).
+Proof. exact device_conservation_lemma. Qed.
+Print Assumptions device_conservation.
+
+(* the excluded case is a real defect (finding async-full-buffering-setbuf-shrink): the faithful model of
+   async_io_buf::setbuf + vector::resize zeroes buffered bytes.  Full model, SCGI, no headers:
+   write 1 2 3 4; setbuf(1); write 5  puts  CR LF 1 0 0 0 5  on the wire *)
+Theorem device_conservation_shrinking_setbuf_refuted :
+  let c := new_conn Scgi true false 1 [] [] [] [] in
+  concat (k_wire (fst (run_request true (mkHeaders [] []) 1024 [] c shrink_ops))) = CRLF ++ [1;0;0;0;5].
+Proof. exact shrink_witness. Qed.
+Print Assumptions device_conservation_shrinking_setbuf_refuted.
+
+Example device_nonvacuous :
+  let c := new_conn Scgi true false 1 [] [] [] [] in
+  let ops := [DSputn [1;2;3]; DSetbuf 2; DSputc 4; DSync; DSputn [5;6;7]; DSetbuf 0; DSputn [8]] in
+  dsafe (dev_open (new_dev false) 4) c ops /\
+  map fst (k_trace (snd (let (d1, c1) := drun (dev_open (new_dev false) 4) c ops in dev_close d1 c1))) =
+    [[[1;2;3]]; [[4]]; [[5;6;7]]; [[8]]; []].
+Proof. vm_compute. repeat split; discriminate. Qed.
+
+(* ------------------------------------------------------------------------------------------------ 3. framing
+   unchunk_chunk: for every sequence of gather buffers written without eof followed by the completing write,
+   the chunked transfer coding produced by make_chunked_wrapper de-frames (independent decoder unchunk) to the
+   concatenation of the buffers and the decoder stops exactly behind the last-chunk; empty non-final chunks are
+   suppressed (they would terminate the body) *)
+Theorem unchunk_chunk : forall pre g rest fuel,
+  Forall (fun w => snd w = false) pre -> (length pre + 1 < fuel)%nat ->
+  unchunk fuel (concat (map chunked_bytes pre) ++ chunked_bytes (g, true) ++ rest) =
+  Some (concat (map data_of pre) ++ concat g, rest).
+Proof. exact unchunk_chunk_aux. Qed.
+Print Assumptions unchunk_chunk.
+
+(* unrecord_record: FastCGI STDOUT records of at most 65535 bytes with padding, multi-entry gather buffers split
+   across records, empty STDOUT + END_REQUEST at completion: the independent decoder returns the concatenation *)
+Theorem unrecord_record : forall pre rid g rest, Forall (fun w => snd w = false) pre ->
+  exists fuel0, forall fuel, (fuel0 <= fuel)%nat ->
+  unrecord fuel rid (concat (map (fcgi_bytes rid) pre) ++ fcgi_bytes rid (g, true) ++ rest) =
+  Some (concat (map data_of pre) ++ concat g, rest).
+Proof. exact unrecord_record_aux. Qed.
+Print Assumptions unrecord_record.
+
+Example framing_nonvacuous :
+  unchunk 5 (chunked_bytes ([[1;2];[3]], false) ++ chunked_bytes ([], false) ++ chunked_bytes ([[4]], true) ++ [99]) = Some ([1;2;3;4], [99]) /\
+  chunked_bytes ([[1;2];[3]], false) = [51;13;10;1;2;3;13;10] /\
+  (let g := [repeat 7 (N.to_nat 65530); repeat 8 10] in
+   (lenN (fcgi_bytes 258 (g, true)) =? 65540 + 8 + 8 + 1 + 3 + 24) = true /\
+   match unrecord 9 258 (fcgi_bytes 258 (g, true) ++ [99]) with
+   | Some (b, r) => eqb_bytes b (concat g) && eqb_bytes r [99]
+   | None => false
+   end = true).
+Proof. vm_compute. repeat split. Qed.
+
+(* ------------------------------------------------------------------------------------------------ 4. headers_once + framing soundness
+   the ideal stream of a whole response = exactly one header block followed by the body under the framing the
+   block announces.  t ranges over all traces ending in the completing write. *)
+Theorem headers_once_scgi : forall f g e t, f_proto f = Scgi -> f_hdr_done f = false ->
+  stream f ((g, e) :: t) = f_hdr f ++ concat (map data_of ((g, e) :: t)).
+Proof. exact stream_scgi. Qed.
+Print Assumptions headers_once_scgi.
+
+Theorem headers_once_fastcgi : forall f pre g rest, f_proto f = Fcgi -> f_hdr_done f = false ->
+  Forall (fun w => snd w = false) pre ->
+  exists fuel0, forall fuel, (fuel0 <= fuel)%nat ->
+  unrecord fuel (f_reqid f) (stream f (pre ++ [(g, true)]) ++ rest) =
+  Some (f_hdr f ++ concat (map data_of (pre ++ [(g, true)])), rest).
+Proof. exact fcgi_response_decodes. Qed.
+Print Assumptions headers_once_fastcgi.
+
+Theorem http_framing_sound_chunked : forall f g0 pre g rest,
+  f_proto f = Http -> f_hdr_done f = false -> f_cka f = true -> f_http11 f = true -> f_ocl f = None ->
+  Forall (fun w => snd w = false) pre ->
+  let head := f_hdr f ++ f_server f ++ (CONN_KA ++ TE_CHUNKED) ++ CRLF in
+  exists body, stream f ((g0, false) :: pre ++ [(g, true)]) = head ++ body /\
+    forall fuel, (length pre + 2 < fuel)%nat ->
+    unchunk fuel (body ++ rest) = Some (concat (map data_of ((g0, false) :: pre ++ [(g, true)])), rest).
+Proof. exact http_chunked_response_decodes. Qed.
+Print Assumptions http_framing_sound_chunked.
+
+Theorem http_framing_sound_close : forall f g0 e0 t,
+  f_proto f = Http -> f_hdr_done f = false -> f_cka f = false -> f_ocl f = None -> e0 = false ->
+  stream f ((g0, e0) :: t) = (f_hdr f ++ f_server f ++ CONN_CLOSE ++ CRLF) ++ concat (map data_of ((g0, e0) :: t)).
+Proof. exact http_close_response. Qed.
+Print Assumptions http_framing_sound_close.
+
+Theorem http_framing_sound_single_write : forall f g,
+  f_proto f = Http -> f_hdr_done f = false -> f_ocl f = None ->
+  stream f [(g, true)] =
+  (f_hdr f ++ f_server f ++ CL_LINE ++ decN (lenN (concat g)) ++ CRLF ++ (if f_cka f then CONN_KA else CONN_CLOSE) ++ CRLF) ++ concat g.
+Proof. exact http_single_write_response. Qed.
+Print Assumptions http_framing_sound_single_write.
+(* http_framing_sound for an application-declared Content-Length (overrun => error) is not proved: PARTIAL;
+   it is covered by the correspondence and by the oracle (exact lengths). *)
+
+Example headers_nonvacuous :
+  let f := set_response_headers (k_fmt (new_conn Http true true 1 [83;58;120;13;10] [] [] []))
+             (mkHeaders (hmap_set (hmap_set [] [66] [49]) [97] [50]) [cookie_line [99] [100]]) [49;46;49] in
+  f_hdr f = [72;84;84;80;47;49;46;49;32;50;48;48;32;79;107;13;10; 97;58;32;50;13;10; 66;58;32;49;13;10] ++ cookie_line [99] [100] ++ CRLF /\
+  exists body, stream f [([[1]], false); ([[2;3]], true)] = f_hdr f ++ [83;58;120;13;10] ++ (CONN_KA ++ TE_CHUNKED) ++ CRLF ++ body /\
+               unchunk 4 body = Some ([1;2;3], []).
+Proof. split; [vm_compute; reflexivity|]. eexists. split; vm_compute; reflexivity. Qed.
+
+(* ------------------------------------------------------------------------------------------------ 5. cache_copy_exact
+   copy_buf: the copy handed to the page cache (copied_data) is byte-identical to what the application wrote
+   through it, for every write size (doubling points of the internal buffer included) *)
+Theorem cache_copy_exact_write : forall fuel y d c s, (length s < fuel)%nat ->
+  c_all (fst (fst (cpy_xsputn fuel y d c s))) = c_all y ++ s.
+Proof. exact cpy_xsputn_all. Qed.
+Print Assumptions cache_copy_exact_write.
+Theorem cache_copy_exact_put : forall y d c ch, c_all (fst (fst (cpy_sputc y d c ch))) = c_all y ++ [ch].
+Proof. exact cpy_sputc_all. Qed.
+Print Assumptions cache_copy_exact_put.
+Theorem cache_copy_exact_flush : forall y d c, c_all (fst (fst (cpy_sync y d c))) = c_all y.
+Proof. exact cpy_sync_all. Qed.
+Print Assumptions cache_copy_exact_flush.
+(* gzip (theorem 6 of the plan) and raw io modes are not modelled: oracle only. *)
+Example cache_copy_nonvacuous :
+  let c := new_conn Scgi true false 1 [] [] [] [] in
+  let '(cf, copy) := run_request false (mkHeaders [] []) 4 [] c [OCopy; OWrite (repeat 7 130); OPut [1;2]; OFlush; OWrite [3]] in
+  copy = repeat 7 130 ++ [1;2;3] /\ concat (k_wire cf) = CRLF ++ repeat 7 130 ++ [1;2;3].
+Proof. vm_compute. split; reflexivity. Qed.
+
+(* ------------------------------------------------------------------------------------------------ 6. composition: the whole request
+   run_request = response script -> (copy_buf) -> device -> connection -> socket.  For every script (any writes, puts,
+   flushes, setbuf, full_asynchronous_buffering, headers, cookies, copy_to_cache, async_flush_output) that contains no
+   shrinking setbuf on a fully buffered device (script_safe, the refuted case), synchronous or asynchronous, every
+   protocol, EVERY accept schedule (it is a field of c): unless the connection signalled an error,
+   the wire is the ideal stream of a trace t ++ [(g, eof)] with all_false t whose data is exactly the script's bytes,
+   nothing is left pending, and the page-cache copy (when copy_buf is installed) equals the body. *)
+Theorem response_exact : forall async base defbuf version c ops,
+  fresh c -> script_safe async base defbuf version c ops ->
+  let f0 := set_response_headers (k_fmt c) (hdrs_at_out base ops) version in
+  let res := run_request async base defbuf version c ops in
+  k_err (fst res) = false ->
+  (exists (t : list (gather * bool)) (g : gather), all_false t /\ concat (map data_of t) ++ concat g = script_body ops /\
+               wire_bytes (fst res) = stream f0 (t ++ [(g, true)])) /\
+  k_pending (fst res) = [] /\
+  (r_copy_on (fst (whole (new_resp async base defbuf version) c ops)) = true -> snd res = script_body ops).
+Proof. exact response_exact_lemma. Qed.
+Print Assumptions response_exact.
+
+(* SCGI: the wire is the CGI header block (headers/cookies set before the first output, once) followed by the body *)
+Theorem scgi_response_exact : forall async base defbuf version c ops,
+  fresh c -> f_proto (k_fmt c) = Scgi -> script_safe async base defbuf version c ops ->
+  let cf := fst (run_request async base defbuf version c ops) in
+  k_err cf = false ->
+  wire_bytes cf = format_cgi_headers (hdrs_at_out base ops) ++ script_body ops.
+Proof. exact scgi_exact. Qed.
+Print Assumptions scgi_response_exact.
+
+(* FastCGI: the wire de-records (independent decoder, up to END_REQUEST, nothing consumed beyond) to header block ++ body *)
+Theorem fastcgi_response_exact : forall async base defbuf version c ops rest,
+  fresh c -> f_proto (k_fmt c) = Fcgi -> script_safe async base defbuf version c ops ->
+  let cf := fst (run_request async base defbuf version c ops) in
+  k_err cf = false ->
+  exists fuel0, forall fuel, (fuel0 <= fuel)%nat ->
+  unrecord fuel (f_reqid (k_fmt c)) (wire_bytes cf ++ rest) =
+  Some (format_cgi_headers (hdrs_at_out base ops) ++ script_body ops, rest).
+Proof. exact fcgi_exact. Qed.
+Print Assumptions fastcgi_response_exact.
+
+(* HTTP (no application-declared Content-Length): status line + headers + Server line, then one of three sound
+   framings: computed Content-Length = |body| and the body; chunked coding that de-frames to the body; or
+   Connection: close and the body verbatim *)
+Theorem http_response_exact : forall async base defbuf version c ops,
+  fresh c -> f_proto (k_fmt c) = Http -> hmap_get (h_map (hdrs_at_out base ops)) CONTENT_LENGTH = [] ->
+  script_safe async base defbuf version c ops ->
+  let cf := fst (run_request async base defbuf version c ops) in
+  k_err cf = false ->
+  http_wire (format_http_headers (hdrs_at_out base ops) version) (f_server (k_fmt c)) (script_body ops) (wire_bytes cf).
+Proof. exact http_exact. Qed.
+Print Assumptions http_response_exact.
+(* PARTIAL: with an application-declared Content-Length (overrun => error, shortfall) no Coq theorem; blocking-loop
+   liveness (k_err = false is a hypothesis: it fails only when the socket reports an error) *)
+
+Example response_nonvacuous :
+  let c := new_conn Http true true 1 [83;58;120;13;10] [] [3;0;1;0;7;2] [] in
+  let ops := [OHeader [88] [49]; OSetbuf false 2; OFull false; OWrite [1;2;3]; OHeader [89] [50]; OAsyncFlush; OFull true;
+              OPut [4;5]; OSetbuf false 5; OFlush; OWrite [6]] in
+  fresh c /\ script_safe true (mkHeaders [] []) 1024 [49;46;49] c ops /\
+  k_err (fst (run_request true (mkHeaders [] []) 1024 [49;46;49] c ops)) = false /\
+  script_body ops = [1;2;3;4;5;6] /\
+  h_map (hdrs_at_out (mkHeaders [] []) ops) = [([88],[49])] /\
+  (lenN (k_log (fst (run_request true (mkHeaders [] []) 1024 [49;46;49] c ops))) =? 8) = true.
+Proof.
+  vm_compute. repeat split; try (intros H; discriminate H); try (intros _ H; discriminate H).
+Qed.
+
+(* ------------------------------------------------------------------------------------------------ 7. tie
+   the growth policy of the fully buffered device regenerated from the current source equals the model's *)
+Theorem tie_next_size : forall n, n < 2 ^ 63 -> g_next_size (Z.of_N n) = Z.of_N (next_size n).
+Proof. exact link_next_size. Qed.
+Print Assumptions tie_next_size.
